@@ -114,7 +114,7 @@ int main(int argc, char** argv) {
           for (int i = 0; i < nu; ++i) u2[i] = r.U(-1, 1);
           auto pose = [&](State& st) { sys.realize(st, Stage::Position); return mb.getMobilizerTransform(st); };
           State z = s2; z.updQ() = q2; const Transform X0 = pose(z);         // pose of the starting coordinates
-          { State a = s2; a.updQ() = q2; mb.setQToFitRotation(a, X.R()); if (type != 12) mb.setQToFitTranslation(a, X.p());
+          { State a = s2; a.updQ() = q2; mb.setQToFitRotation(a, X.R()); mb.setQToFitTranslation(a, X.p());   // (Ellipsoid: known finding fitR+T-Ellipsoid)
             const Transform Xa = pose(a); chk("fitR+T", type, xdiff(Xa.R().asMat33(), Xa.p(), X), 1e-9, info); }
           { State a = s2; a.updQ() = q2; mb.setQToFitRotation(a, X.R()); const Transform Xa = pose(a);
             chk("fitR-reaches-R", type, (Xa.R().asMat33() - X.R().asMat33()).norm(), 1e-9, info);
@@ -130,7 +130,8 @@ int main(int argc, char** argv) {
             chk("fitT-keeps-R", type, (Xb.R().asMat33() - X0.R().asMat33()).norm() + (Xb.p() - X.p()).norm(), 1e-9, info); }
           const bool velOK = !rev || V[0].norm() == 0;
           const bool sphere = type != 12 || (par[0] == par[1] && par[1] == par[2]);
-          if (velOK && sphere) { State c = s; c.updU() = u2; mb.setUToFitAngularVelocity(c, V[0]); mb.setUToFitLinearVelocity(c, V[1]);
+          (void)sphere;   // a non-spherical Ellipsoid is the known finding fitW+LV-Ellipsoid
+          if (velOK) { State c = s; c.updU() = u2; mb.setUToFitAngularVelocity(c, V[0]); mb.setUToFitLinearVelocity(c, V[1]);
             chk("fitW+LV", type, nu ? (c.getU() - s.getU()).norm() : 0, 1e-9, info); }
           if (velOK) { State c = s; c.updU() = u2; mb.setUToFitLinearVelocity(c, V[1]); mb.setUToFitAngularVelocity(c, V[0]);
             chk("fitLV+W", type, nu ? (c.getU() - s.getU()).norm() : 0, 1e-9, info); }
